@@ -16,7 +16,7 @@ RULE = ("histories of 2-6 clients (threads, one proxy each, reconnecting now and
         "thread pool with THREADPOOL_SIZE_MIN=1 (workers reused by successive connections); a sequential phase forces worker reuse after a "
         "raising call. distinct = (history hash, server, serializer); one evaluation = one request; non-trivial = the request reached a method")
 ASSUMPTIONS = ["oneway completions are awaited (10 s watchdog, expiry = inconclusive)", "peer address compared with the client's getsockname() (TCP loopback)"]
-REQUIRED_REACH = ["stream_items_context_checked", "injected_yields", "snapshots_checked", "replies_checked", "raising_calls", "oneway_calls", "batch_calls", "ping_replies", "handshake_replies", "worker_reuse_handshakes", "idless_requests", "reply_correlation_ids_checked", "refused_handshake_replies", "bare_requests", "handshake_tokens_checked"]
+REQUIRED_REACH = ["nested_call_replies_clean", "stream_items_context_checked", "injected_yields", "snapshots_checked", "replies_checked", "raising_calls", "oneway_calls", "batch_calls", "ping_replies", "handshake_replies", "worker_reuse_handshakes", "idless_requests", "reply_correlation_ids_checked", "refused_handshake_replies", "bare_requests", "handshake_tokens_checked"]
 SHARD_TIMEOUT = {"quick": 240, "thorough": 2800}
 OPS = ["ret", "noresp", "noresp", "rais", "rais", "ow", "batch", "batch_rais", "propget", "propset", "ping", "handshake", "reconnect", "propget_rais", "badhandshake", "bare", "bare", "barepoll", "ow_rst"]
 # "ow_rst": a oneway call whose connection the client resets right after sending (the request may or may not get served)
@@ -494,6 +494,61 @@ def stream_context_phase(fx, rec, r, sername):
         rec.violation("method-saw-foreign-context:streamed-item", bad, pay)
 
 
+def nested_calls_phase(fx, rec, r, sername):
+    """a served method makes calls of its own (to an object of another daemon) before it answers. The replies to THOSE calls carry response
+    annotations of their own; the method itself sets none: its reply carries none of them"""
+    P = fx.P
+    ctx = P.callcontext.current_context
+    aux = fixture.Fixture(servertype="thread", COMMTIMEOUT=0.0, THREADPOOL_SIZE=P.config.THREADPOOL_SIZE, THREADPOOL_SIZE_MIN=1)
+
+    @P.server.expose
+    class Aux(object):
+        def tag(self, token, setit):
+            if setit:
+                ctx.response_annotations = {"RESP": token.encode(), "AUXX": b"aux"}
+            return token
+    aux.register(Aux(), "aux")
+    aux_uri = aux.uri("aux")
+
+    @P.server.expose
+    class Nester(object):
+        def nest(self, token, order):
+            with P.client.Proxy(aux_uri) as q:
+                q._pyroSerializer = sername
+                for k, setit in enumerate(order):
+                    q.tag("%s/n%d" % (token, k), setit)
+            return token
+    if "nester" not in fx.daemon.objectsById:
+        fx.register(Nester(), "nester")
+    try:
+        with fx.proxy("nester", serializer=sername, timeout=10.0) as p:
+            for order, judged in (([True, False], True), ([True, True, False], True), ([False], True), ([False, True], False), ([True], False)):
+                token = "nest-%s" % "".join("s" if x else "p" for x in order)
+                pay = {"nested_calls": True, "order": order, "serializer": sername, "servertype": fx.servertype}
+                rec.case(("nested", tuple(order), sername, fx.servertype), nontrivial=True)
+                ctx.annotations = {"TOKN": token.encode()}
+                try:
+                    out = p.nest(token, order)
+                except Exception as x:
+                    rec.inconc("nested calls phase: call failed %r" % (x,))
+                    continue
+                got = {k: bytes(v) for k, v in dict(ctx.response_annotations).items() if k != "DMON"}
+                if out != token:
+                    rec.violation("foreign-reply", "nest(%s) returned %r" % (token, out), pay)
+                    return
+                if got:
+                    rec.violation("response-annotation-of-other-call:nested" if judged else "nested-call-reply-annotations-forwarded",
+                                  "a method that sets no response annotation made the nested calls %s (s = that reply carried annotations, p = it carried none) before answering; its own reply carried %r" % (
+                                      "".join("s" if x else "p" for x in order), got), pay)
+                    if judged:
+                        return
+                    continue
+                rec.count("nested_call_replies_clean")
+    finally:
+        ctx.annotations = {}
+        aux.stop()
+
+
 def plan(tier, seed):
     shards = []
     nh = 40 if tier == "quick" else 400
@@ -513,6 +568,7 @@ def run_shard(shard, rec):
         sequential_reuse(fx, slog, rec, r, shard["serializer"])
         if shard["pool"] >= 8:
             stream_context_phase(fx, rec, r, shard["serializer"])
+            nested_calls_phase(fx, rec, r, shard["serializer"])
         if shard.get("inject"):
             yieldinj.enable(("Pyro5/server.py", "Pyro5/callcontext.py", "Pyro5/svr_threads.py", "Pyro5/svr_multiplex.py"), 0.03, rec.seed * 7 + 1)
         for h in range(shard["histories"]):
@@ -537,6 +593,14 @@ def run_shard(shard, rec):
 
 
 def replay(payload, rec):
+    if payload.get("nested_calls"):
+        P = fixture.pyro()
+        fx, slog = make_env(P, payload["servertype"], 8)
+        try:
+            nested_calls_phase(fx, rec, gen.rng(0, "replay"), payload["serializer"])
+        finally:
+            fx.stop()
+        return
     if payload.get("stream_context"):
         P = fixture.pyro()
         fx, slog = make_env(P, payload["servertype"], 8)
